@@ -1040,7 +1040,7 @@ func (c *hostile) readIntoBlock(seed uint64) {
 	}
 }
 
-func nBlocks(tier int) int { return 70 * tier }
+func nBlocks(tier int) int { return 50 * tier }
 
 // childMain: the hostile stream from (fromB, fromI) on
 func childMain(seed uint64, tier, fromB, fromI int) {
